@@ -448,3 +448,6 @@ LEVEL_NOTE = ("Trusted: Lean kernel; Spec/GbLayout.lean (the writer and wf, type
               "stand for the four regular expressions; ASCII; parseLocation (C02) not panicking on domain location texts; "
               "file I/O and gzip of the Read* wrappers. Six defects found by this check or its review were repaired in /repo (5a12a0c, c94d396, "
               "49c2e81, d6becc3, 1a072ef, 1650bb9); their exemplars stay in gen/corpus/C01 as regression cases.")
+
+# the same requests executed 8 at a time in concurrent goroutines (check: PARALLEL / harness: VERIF_PAR)
+PARALLEL = {"quick": {"par": 8, "max_cases": 4000}, "thorough": {"par": 8, "max_cases": 40000, "race": True}}
